@@ -40,6 +40,9 @@ impl Group for C11Sim {
             c("world fresh|vh 0 g 0|act|restart|scp 0 0"),
             // a signer whose tracker is still below the compiled-in checkpoint
             c("world nocp|restart|blk+ g|blk+ g|restart|vh 0 g 0|rv 0|blk- g|restart|hb"),
+            // composite persister: both sides restore the same signer; the main store is lost and recovered
+            c("world backup|al add g|vh 0 g 0|rv 0|restart|scp 0 0|forget 0|blk+ g|restart|ks 1000"),
+            c("world backup|al add gx|ks 1000|vh 0 g 1|mainloss|rv 0|al rm g|restart|scp 0 0|mainloss|blk+ g"),
             // a full channel map
             c("newch 1|newch 2|newch 3|newch 4|restart|newch 4|forget 2|newch 4|restart|newch 5"),
             // closing through either entry point must be durable
@@ -55,6 +58,13 @@ impl Group for C11Sim {
         }
         if rng.chance(1, 3) { ops.insert(0, "world perm".to_string()); }
         else if rng.chance(1, 6) { ops.insert(0, "world nocp".to_string()); }
+        else if rng.chance(1, 5) {
+            // composite persister (main + backup): sometimes the main store is lost and recovered
+            ops.insert(0, "world backup".to_string());
+            for i in 1..ops.len() {
+                if rng.chance(1, 8) { ops[i] = "mainloss".to_string(); }
+            }
+        }
         else if rng.chance(1, 5) {
             // a channel whose initial commitment is not yet validated: validate (either entry point), activate
             let mut pre = vec!["world fresh".to_string()];
@@ -79,7 +89,7 @@ impl Group for C11Sim {
             let mem = view(&sim.node(), true);
             if out == Outcome::Ok && mem != before_view { kinds_changed.insert(kind.to_string()); n_changed += 1; }
             if !matches!(out, Outcome::Panic(_)) {
-                if op != "restart" {
+                if op != "restart" && op != "mainloss" {
                     // crash point between prepare() and commit()
                     match sim.restore_shadow_crash() {
                         Err(e) => co.violations.push(Violation { kind: "restore-failed:prepare-commit".into(), desc: format!("after {}: {}", op, e), at: i }),
@@ -100,6 +110,21 @@ impl Group for C11Sim {
                             let which = d[0].split('.').take(2).collect::<Vec<_>>().join(".");
                             let which = if which.starts_with("chan.") { if d[0].ends_with(".monitor") { "chan.monitor".to_string() } else { "chan.enforcement".to_string() } } else { which };
                             co.violations.push(Violation { kind: format!("not-durable:{}:{}", kind, which), desc: format!("after {} ({}) a signer restarted from the store differs in {:?}", op, out.class(), d), at: i });
+                        }
+                    }
+                }
+            }
+            // `world backup`: the main store alone must restore the same signer as well
+            if !matches!(out, Outcome::Panic(_)) {
+                if let Some(r) = sim.restore_shadow_main() {
+                    match r {
+                        Err(e) => co.violations.push(Violation { kind: "restore-failed:main-store".into(), desc: format!("after {}: {}", op, e), at: i }),
+                        Ok(shadow) => {
+                            let d = diff_views(&mem, &view(&shadow, true));
+                            if !d.is_empty() {
+                                let what = if d.iter().all(|x| x.starts_with("chan.")) && d.iter().any(|x| x.ends_with(" missing") || x.ends_with(" extra")) { "channel-set" } else { "content" };
+                                co.violations.push(Violation { kind: format!("not-durable-in-main-store:{}:{}", kind, what), desc: format!("after {} ({}) a signer restarted from the main store of the BackupPersister differs in {:?}", op, out.class(), d), at: i });
+                            }
                         }
                     }
                 }
